@@ -114,7 +114,7 @@ def alphabet(P):
             "\U0001F600", "\U0001D400", "\U00010400", "\U0010FFFF", "\U00020000"]
     # characters below U+0300 that NFKC changes (no combining mark involved), characters that toLower changes
     # although they are not category Lu (titlecase digraphs, Roman numerals, circled capitals)
-    toks += list(BELOW_0300_NFKC) + list(NON_LU_LOWER)
+    toks += list(BELOW_0300_NFKC) + list(NON_LU_LOWER) + list(POST32_NFKC)
     for t in P["tables"].values():
         for frm, to in t:
             toks.append(frm)
@@ -133,6 +133,8 @@ def alphabet(P):
 
 
 BELOW_0300_NFKC = "\u00a0\u00a8\u00aa\u00af\u00b2\u00b3\u00b4\u00b5\u00b8\u00b9\u00ba\u00bc\u00bd\u00be\u0132\u0133\u013f\u0140\u0149\u017f\u01c4\u01c5\u01c6\u01c7\u01c8\u01c9\u01ca\u01cb\u01cc\u01f1\u01f2\u01f3\u02b0\u02b2\u02b7\u02d8\u02d9\u02da\u02db\u02dc\u02dd\u02e0\u02e2\u02e3"
+# assigned after Unicode 3.2, with a compatibility mapping (BMP and supplementary)
+POST32_NFKC = "\u1d2c\u1d43\u1d9b\u1d62\u2c7c\u2c7d\ua770\ua7f8\U0001f110\U0001f12a\U0001f131\U0001f200\U0001d6a4"
 NON_LU_LOWER = "\u01c5\u01c8\u01cb\u01f2\u1f88\u1f8f\u1fbc\u2160\u2167\u216f\u24b6\u24cf"
 
 
@@ -199,7 +201,7 @@ def main(argv):
         for frm, to in t:
             lines += [frm + frm, "a" + frm, frm + "a", "a " + frm + " b", frm + "\U0001F600", "\U0001F600" + frm]
     lines += ["a\U0001F600b", "\U0001F600", "\U0001F600\U0001F600", "x\U0010FFFF", "' s", "' s ", "a' s", "' sfoo", "' s x", "' s\U0001F600",
-              "a' s", "a' s b", "5 - year - old", "5 - years - old x", "3{", "x\r", "' s\r", "\r", "chapter \u2167", "\u01c5", "\u24b6\u24cf x", "\u1f88 a", "x\u2160\u216f", "a\u00a0b", "1\u00bd kg", "\u00b5m \u00b2", "n\u00ba 3", "\u0133 \u0140 \u017f", "\u02b0\u02e2", "\u01c5 \u01f2",
+              "\u1d2c\u1d43", "x\u2c7c", "\U0001f110 \U0001f131", "\ua770\u1d9b", "a' s", "a' s b", "5 - year - old", "5 - years - old x", "3{", "x\r", "' s\r", "\r", "chapter \u2167", "\u01c5", "\u24b6\u24cf x", "\u1f88 a", "x\u2160\u216f", "a\u00a0b", "1\u00bd kg", "\u00b5m \u00b2", "n\u00ba 3", "\u0133 \u0140 \u017f", "\u02b0\u02e2", "\u01c5 \u01f2",
               "a\U000200abb", "\U00020027 s", "\U00022026", "\U00012019x", "\U0001201c\U0001201d", "\U00010026 amp ;", "\U00010020- year - old",
               "' S", "a' S b", "5 - YEAR - OLD", "& QUOT ;", "& Amp ;", "Æ' S", "' s\u00a0x", "' s\u2028", "' s\tx", "' s\u3000", "' s\u0085", "' s\u200b", "' s\u00a0", "5 - year - old\u00a0k",
               "5 - year - old", "5 - year - old ", "5 - year - olds", "5 - years - old\t", "''' s ", "````", "& amp ; quot ;", "& amp", "& amp ;;",
@@ -306,7 +308,7 @@ def main(argv):
     inputs = []
     fixed = [["A“x” É", "B“y” É", "C“z” É", "D“w” É", "E“v” É"], ["ﬁ", "ﬁ", "ﬁ"], ["a\U0001F600b"], [""], ["", "", "x"],
              ["' s", "5 - year - old", "``q''"], ["İ", "ΑΣ", "①"], ["a' S", "5 - YEAR - OLD x", "& QUOT ;"],
-             ["a\r", "\r", "b\rc", "' s\r", "\u201cq\u201d\r", "last\r"], ["a' s", "5 - year - old", "7{ - years - old"],
+             ["\u1d2c\u1d43", "x\u2c7c y", "\U0001f110\U0001f131"], ["a\r", "\r", "b\rc", "' s\r", "\u201cq\u201d\r", "last\r"], ["a' s", "5 - year - old", "7{ - years - old"],
              ["chapter \u2167", "\u01c5", "\u24b6\u24cf x", "\u1f88"], ["a\u00a0b", "1\u00bd kg", "\u00b5m\u00b2", "n\u00ba 3 \u0133\u017f"],
              ["a\U000200abb", "\U00020027 s", "\U00022026 \U00012019"]]
     for f in fixed:
@@ -379,6 +381,33 @@ def main(argv):
                 c.violation("%s: flags lower/flatten/normalize=%s language %s: line %d (counting from 1) %r came out as %r, expected %r" % (kind, fs, code, i + 1, src, g, w),
                             dict(rep, kind=kind, line_index=i + 1, got=g, expected=w))
                 break
+    # lines longer than 65535 bytes with something that must not be cut straddling byte 65535 (a reader with a
+    # fixed 64 KiB buffer would transform the two halves separately); every flag set; oracle = Python + ICU
+    strad = ["\u00e9", "\U0001F600", "``", "e\u0301", "\u201c"]
+    longs = ["a" * 65534 + x + " tail" for x in strad] + ["b" * 131069 + "\U0001F600" + "x"]
+    icu.need("L", longs)
+    icu.need("S", [ord(ch) for l in longs for ch in set(l)])
+    fl1 = [py_flatten(starts["en"], l, icu.isspace) for l in longs]
+    fl2 = [py_flatten(starts["en"], icu.lower(l), icu.isspace) for l in longs]
+    icu.need("N", longs + fl1 + fl2 + [icu.lower(l) for l in longs])
+    for fs in FLAGSETS:
+        want = []
+        for l in longs:
+            x = icu.lower(l) if fs[0] == "1" else l
+            x = py_flatten(starts["en"], x, icu.isspace) if fs[1] == "1" else x
+            want.append(icu.nfkc(x) if fs[2] == "1" else x)
+        data = u8("\n".join(longs) + "\n")
+        argv = [tool, "-l", "en"] + [a for a, b in zip(("--lower", "--flatten", "--normalize"), fs) if b == "1"]
+        st, so, se = run_limited(argv, stdin=data, timeout=60)
+        c.count(("long", fs), nontrivial=True, bucket="tool/line>65535-bytes")
+        got = so.decode("utf-8", "replace").split("\n")[:-1] if st == 0 else None
+        if got != want:
+            j = 0 if got is None or len(got) != len(want) else [k for k in range(len(want)) if got[k] != want[k]][0]
+            c.violation("long-line: flags lower/flatten/normalize=%s: line %d (%d bytes, %r straddles byte 65535) is not transformed as a whole: status %s, %s" % (
+                fs, j + 1, len(u8(longs[j])), (strad + ["\U0001F600"])[j], st,
+                "no output" if got is None else ("%d lines out" % len(got) if len(got) != len(want) else "got ...%r expected ...%r" % (got[j][65520:65550], want[j][65520:65550]))),
+                {"op": "process_unicode", "argv": argv[1:], "stdin": "%d lines: 65534 x 'a' + <straddler> + ' tail' for straddlers %r, and 131069 x 'b' + U+1F600 + 'x'" % (len(longs), strad), "status": st})
+            break
     # unsupported languages: the model says PNoLanguage (UnsupportedLanguageException), the tool must not end with 0
     for code in ("xx", "EN", "e", "english", ""):
         st, so, se = run_limited([tool, "-l", code, "--flatten"], stdin=u8("a\u201cb\n"), timeout=30)
